@@ -144,7 +144,50 @@ def show_img(img):
     return "[" + ",".join(str(int(s)) for s in a.shape) + "] [" + ",".join(map(str, ints.tolist())) + "]"
 
 
+def window_parts(case):
+    """a kymograph restricted to the lines [l0, l1): the cut info wave and per-colour cut photon streams
+    (plain index arithmetic on the info wave: line l starts at the first used sample of pixel l*P)"""
+    iw, P = case["iw"], case["P"]
+    starts, npx, inpix = [], 0, False
+    for i, c in enumerate(iw):
+        if c != 0 and not inpix:
+            if npx % P == 0:
+                starts.append(i)
+            inpix = True
+        if c == 2:
+            npx += 1
+            inpix = False
+    L = len(starts)
+    l0, l1 = case["l0"], case["l1"]
+    s0 = starts[l0]
+    s1 = starts[l1] if l1 < L else len(iw)
+    chans = {c: (None if not case["channels"].get(c) else case["channels"][c][s0:s1]) for c in COLORS}
+    return s0, s1, iw[s0:s1], chans, L
+
+
+def impl_window(case):
+    s0, s1, _, _, L = window_parts(case)
+    start, dt = case.get("start", bc.START), case.get("dt", bc.DT)
+    with bc.quiet():
+        try:
+            obj = bc.make_kymo(case["iw"], case["P"], case["channels"], start=start, dt=dt)
+            t0 = start + s0 * dt
+            t1 = start + s1 * dt if case["l1"] < L else None
+            sub = obj[t0:t1]
+        except Exception as ex:
+            return [errname(ex)] * 3
+        out = []
+        for color in COLORS:
+            try:
+                out.append(show_img(sub.get_image(color)))
+            except Exception as ex:
+                out.append(errname(ex))
+    return out
+
+
 def impl(case):
+    if case["op"] == "window":
+        return impl_window(case)
     if case["op"] == "sum":
         from lumicks.pylake.detail.image import reconstruct_image_sum
 
@@ -193,6 +236,9 @@ def enc_chan(data):
 
 
 def ops(case):
+    if case["op"] == "window":
+        _, _, iwc, chans, _ = window_parts(case)
+        return [f"c02.kymo {case['P']} {enc_list(iwc)} 0 {enc_chan(chans[c])}" for c in COLORS]
     if case["op"] == "sum":
         return [f"c02.sum {enc_list(case['data'])} {enc_list(case['iw'])} {enc_list(case['shape'])}"]
     e = explicit(case)
@@ -274,6 +320,23 @@ def show_expected(img):
 
 
 def oracle(case, ia):
+    if case["op"] == "window":
+        # every colour of the time-restricted item has the shape of the restricted info wave; a colour without data is
+        # zeros of that shape; a colour with data holds the sums of its own samples inside the window
+        _, _, iwc, chans, _ = window_parts(case)
+        P = case["P"]
+        nb = sum(1 for c in iwc if c == 2)
+        L = -(-nb // P)
+        for color, a in zip(COLORS, ia):
+            data = chans[color]
+            px = assigned_pixels(iwc, data) if data else [0] * nb
+            px = px + [0] * (L * P - len(px))
+            img = [px[l * P + r] for r in range(P) for l in range(L)]
+            exp = f"[{P},{L}] [" + ",".join(map(str, img)) + "]"
+            if a != exp:
+                what = "has no photon data: expected zeros of the item's own shape" if not data else "expected the sums over its own samples in the window"
+                return f"time-restricted kymograph, colour {color} {what} {exp[:120]}, got {a[:120]}"
+        return None
     if case["op"] == "sum":
         iw, data = case["iw"], case["data"]
         if any(c > 2 for c in iw):
@@ -346,6 +409,8 @@ def oracle(case, ia):
 
 
 def nontrivial(case, ia):
+    if case["op"] == "window":
+        return True
     if case["op"] == "sum":
         return ia[0].endswith("Error") or bc.count_pixels(case["iw"]) >= 1
     e = explicit(case)
@@ -364,6 +429,9 @@ def nontrivial(case, ia):
 
 def tags(case, r):
     t = {"op": case["op"]}
+    if case["op"] == "window":
+        t["kind"] = "kymo"
+        return t
     if case["op"] != "sum":
         e = explicit(case)
         t["kind"] = e["kind"]
@@ -371,6 +439,10 @@ def tags(case, r):
 
 
 def shrink(case):
+    if case["op"] == "window":
+        if case["l1"] - case["l0"] > 1:
+            yield dict(case, l1=case["l0"] + 1)
+        return
     if case["op"] == "sum":
         n = len(case["iw"])
         if n > 1 and len(case["data"]) == n:
@@ -479,9 +551,24 @@ def corpus_cases():
         yield c
 
 
+def window_cases(rng, n):
+    """kymographs restricted to a window of whole lines, with an absent colour (seeded change C02b-m2)"""
+    for i in range(n):
+        sub = rng.fork(("window", i))
+        P, lines, k = sub.randint(1, 4), sub.randint(2, 6), sub.randint(1, 3)
+        iw = bc.infowave(P, lines, k, lead_in=sub.randint(0, 3), dead=sub.randint(1, 3), tail=sub.randint(0, 2))
+        cnt = bc.counts(sub, iw, "mixed")
+        present = sub.choice([("red",), ("green",), ("red", "blue"), ("blue",), ("red", "green", "blue")])
+        channels = {c: (list(cnt) if c in present else None) for c in COLORS}
+        l0 = sub.randint(0, lines - 1)
+        l1 = sub.randint(l0 + 1, lines)
+        yield {"stream": "window", "op": "window", "P": P, "iw": iw, "channels": channels, "l0": l0, "l1": l1, "subseed": i}
+
+
 def cases(tier, rng):
     quick = tier == "quick"
     yield from corpus_cases()
+    yield from window_cases(rng.fork("c02-window"), 120 if quick else 3000)
 
     # ---- (a) every info wave over {0,1,2} up to a length, direct call
     maxn = 6 if quick else 8
@@ -623,6 +710,8 @@ def extra_coverage(results):
         for a in r["impl"]:
             if a.endswith("Error"):
                 errs[a] = errs.get(a, 0) + 1
+        if c["op"] == "window":
+            continue
         if c["op"] == "sum":
             n = bc.count_pixels(c["iw"])
         else:
